@@ -124,7 +124,7 @@ def goto_pair(r, base=5.0):
     correctness threshold (|error| 0.375 .. 0.4375 of the half interval)."""
     n = r.randrange(14, 64)
     step = 32
-    start = int(base * Q) + r.randrange(0, 32)
+    start = int(base * Q) + 16 + r.randrange(0, 32)  # every estimate stays >= base
     ref = [start + i * step for i in range(n)]
     quarter = (n - 2) / 4.0
     est = []
